@@ -788,7 +788,10 @@ public:          // need to be public due to CRTP
   /////////////// NONLINEAR FUNCTIONS ////////////////
   ////////////////////////////////////////////////////
   EExpr VisitPowConstExp(BinaryExpr e) {
-    auto c = Cast<NumericConstant>(e.rhs()).value();
+    auto er = Convert2EExpr(e.rhs());
+    if (!er.is_constant())            // NL file does not keep the opcode's promise
+      return VisitPow(e);
+    auto c = er.constant_term();
     if (2.0==c && IfQuadratizePow2()) {
       auto el = Convert2EExpr(e.lhs());
       return QuadratizeOrLinearize(el, el);
@@ -838,9 +841,12 @@ public:          // need to be public due to CRTP
   }
 
   EExpr VisitPowConstBase(BinaryExpr e) {
+    auto el = Convert2EExpr(e.lhs());   // can be a constant expression
+    if (!el.is_constant())              // or not constant at all
+      return VisitPow(e);
     return AssignResult2Args( ExpAConstraint(
       ExpAConstraint::Arguments{ Convert2Var(e.rhs()) },
-      ExpAConstraint::Parameters{ Cast<NumericConstant>(e.lhs()).value() } ) );
+      ExpAConstraint::Parameters{ el.constant_term() } ) );
   }
 
   EExpr VisitLog(UnaryExpr e) {
